@@ -366,16 +366,21 @@ def cases(tier):
             out.append({"fam": fam, "ctx": "batch", "tol": tol, "integ": integ, "bsm": REF_BSM})
         return out
 
+    # explicit-time law: -cvode never sees the time inside a step (see final report), runs with tight tolerances take
+    # minutes; the family is explored on the sub-lattice below (all RK variants + cvode at its default order)
+    tdep = lambda: lattice(["tdep"], ["batch"], ["rk1", "rk2", "rk3", "rk6", "cv5s100"], [500], [1.0], [0.01, 1.0], [1e-6, 1e-8])
     if tier == "quick":
-        bounds.append(("closed forms, batch: 6 families x 3 kT x 3 tol x 8 integrators (m0 1, bad_step_max 500) x 4 divisions x 2 incremental",
-                       lattice(["zero", "first", "two", "chain", "approach", "tdep"], ["batch"], INTEGRATORS, [500], [1.0])))
+        bounds.append(("closed forms, batch: 5 autonomous families x 3 kT x 3 tol x 8 integrators (m0 1, bad_step_max 500) x 4 divisions x 2 incremental",
+                       lattice(["zero", "first", "two", "chain", "approach"], ["batch"], INTEGRATORS, [500], [1.0])))
+        bounds.append(("explicit-time law, batch: 2 kT x 2 tol x {rk1, rk2, rk3, rk6, cvode 5} x 4 divisions x 2 incremental", tdep()))
         bounds.append(("closed forms inside ADVECTION and TRANSPORT time steps: first-order x 3 kT x 3 tol x {rk3, rk6, cvode 5} x 3 shift counts x 2 incremental",
                        lattice(["first"], ["adv", "trn"], ["rk3", "rk6", "cv5s100"], [500], [1.0])))
         bounds.append(("shipped rates Calcite, Pyrite: tol 1e-8 x 8 integrators x 4 divisions x 2 incremental (invariances only)",
                        shipped(["Calcite", "Pyrite"], INTEGRATORS, [1e-8])))
     else:
-        bounds.append(("closed forms, batch: 6 families x 3 kT x 3 tol x 8 integrators x bad_step_max {10,500} x m0 {1, 0.001} x 4 divisions x 2 incremental",
-                       lattice(["zero", "first", "two", "chain", "approach", "tdep"], ["batch"], INTEGRATORS, [500, 10], [1.0, 1e-3])))
+        bounds.append(("closed forms, batch: 5 autonomous families x 3 kT x 3 tol x 8 integrators x bad_step_max {10,500} x m0 {1, 0.001} x 4 divisions x 2 incremental",
+                       lattice(["zero", "first", "two", "chain", "approach"], ["batch"], INTEGRATORS, [500, 10], [1.0, 1e-3])))
+        bounds.append(("explicit-time law, batch: 2 kT x 2 tol x {rk1, rk2, rk3, rk6, cvode 5} x 4 divisions x 2 incremental", tdep()))
         bounds.append(("closed forms inside ADVECTION and TRANSPORT time steps: 4 families x 3 kT x 3 tol x 8 integrators x 3 shift counts x 2 incremental",
                        lattice(["zero", "first", "two", "chain"], ["adv", "trn"], INTEGRATORS, [500], [1.0])))
         bounds.append(("shipped rates Calcite, Pyrite, Organic_C, K-feldspar: 3 tol x 8 integrators x 4 divisions x 2 incremental (invariances only)",
